@@ -169,6 +169,14 @@ def run_property(prop, tier, replay=None):
             break
     for v in real[:6]:
         samples.append({'instance': v['inst'], 'site': v['site'], 'verdict': 'VIOLATION', 'detail': v['detail'][:400]})
+    selftest = None
+    if tier == 'thorough' and not os.environ.get('VERIF_REPO'):
+        try:
+            selftest = self_validation(prop)
+            print('%s self-validation: %d mutants reported, %d missed, %d refactors silent, %d noisy, %d skipped' % (
+                prop, len(selftest['killed']), len(selftest['survived']), len(selftest['silent']), len(selftest['noisy']), len(selftest['skipped'])))
+        except Exception as e:
+            selftest = {'error': repr(e)}
     wall = time.time() - t0
     ev = {
         'property_id': prop,
@@ -197,6 +205,7 @@ def run_property(prop, tier, replay=None):
                 'rustc nightly type checking, trait resolution and MIR construction (-Zmir-opt-level=0)',
                 'envstat term normalisation table (clone/borrow/deref/into_owned transparent)'],
             'exhaustive': True,
+            'selftest': selftest,
         },
         'assumptions': getattr(mod, 'ASSUMPTIONS', []),
         'wall_s': round(wall, 2),
@@ -211,6 +220,56 @@ def run_property(prop, tier, replay=None):
     print('%s %s: %d instance evaluations over %d configuration(s), %d passed, %d known, %d violations (%.1fs)' % (
         prop, tier, len(all_results), len(configs), len(passes), len(known_hit), len(real), wall))
     return exit_code
+
+
+def self_validation(prop):
+    """Thorough tier: run this property's check against scratch copies of /repo carrying (a) the mutants that are expected to be
+    reported for it (selftest/mutants, seeded/) and (b) behaviour-preserving refactors that must stay silent. Informational:
+    never changes the exit code of the check, which reflects the current tree only."""
+    import shutil, subprocess, tempfile
+    out = {'killed': [], 'survived': [], 'silent': [], 'noisy': [], 'skipped': []}
+    cases = []
+    mdir = os.path.join(VERIF, 'selftest', 'mutants')
+    idx = json.load(open(os.path.join(mdir, 'index.json'))) if os.path.exists(os.path.join(mdir, 'index.json')) else {}
+    for name, meta in sorted(idx.items()):
+        if prop in meta.get('expect', []):
+            cases.append(('mutant', name, os.path.join(mdir, name + '.patch'), bool(meta.get('reverse'))))
+    sdir = os.path.join(VERIF, 'seeded')
+    if os.path.isdir(sdir):
+        for d in sorted(os.listdir(sdir)):
+            if d.startswith(prop + '_') and os.path.exists(os.path.join(sdir, d, 'patch.diff')):
+                cases.append(('mutant', 'seeded/' + d, os.path.join(sdir, d, 'patch.diff'), False))
+    rdir = os.path.join(VERIF, 'selftest', 'refactors')
+    ridx = json.load(open(os.path.join(rdir, 'index.json'))) if os.path.exists(os.path.join(rdir, 'index.json')) else {}
+    for name, meta in sorted(ridx.items()):
+        cases.append(('refactor', name, os.path.join(rdir, name + '.patch'), bool(meta.get('reverse'))))
+    for kind, name, patch, reverse in cases:
+        tmp = tempfile.mkdtemp(prefix='envstat_selftest_')
+        try:
+            repo = os.path.join(tmp, 'repo')
+            os.makedirs(repo)
+            shutil.copytree(os.path.join(extract.REPO, 'src'), os.path.join(repo, 'src'))
+            for fn in ('Cargo.toml', 'Cargo.lock'):
+                shutil.copy(os.path.join(extract.REPO, fn), os.path.join(repo, fn))
+            subprocess.run(['git', 'init', '-q', '.'], cwd=repo)
+            r = subprocess.run(['git', 'apply'] + (['-R'] if reverse else []) + ['-p1', patch], cwd=repo, capture_output=True, text=True)
+            if r.returncode != 0:
+                out['skipped'].append({'case': name, 'why': 'patch does not apply to the current tree'})
+                continue
+            env = dict(os.environ, VERIF_REPO=repo, VERIF_NO_EVIDENCE='1', VERIF_TIER='quick')
+            o = subprocess.run([os.path.join(VERIF, 'check'), prop, 'quick'], capture_output=True, text=True, env=env, cwd=VERIF)
+            fired = o.returncode == 1
+            if o.returncode not in (0, 1):
+                out['skipped'].append({'case': name, 'why': 'infrastructure exit %d' % o.returncode})
+                continue
+            insts = sorted({l.split('  ')[1] for l in o.stdout.splitlines() if 'rule=' in l and '  ' in l})
+            if kind == 'mutant':
+                (out['killed'] if fired else out['survived']).append({'case': name, 'instances': insts[:6]})
+            else:
+                (out['noisy'] if fired else out['silent']).append({'case': name, 'instances': insts[:6]})
+        finally:
+            shutil.rmtree(tmp, ignore_errors=True)
+    return out
 
 
 def main(argv):
